@@ -1,4 +1,5 @@
 """Shared group builders."""
+import os
 from driver import Group
 
 BACKEND_SRC = {"C64": "src/core/ascon-sliced64.c", "DEF": "src/core/ascon-sliced64.c",
@@ -362,11 +363,36 @@ def free_groups(prefix, props, cfg="C64", tier="quick"):
     return gs
 
 MW_SRC = {"C64": "src/masking/ascon-masked-word-c64.c", "C32": "src/masking/ascon-masked-word-c32.c",
-          "DX": "src/masking/ascon-masked-word-direct.c", "GEN": "src/masking/ascon-masked-word-direct.c"}
+          "DX": "src/masking/ascon-masked-word-direct.c", "GEN": "src/masking/ascon-masked-word-direct.c",
+          "DEF": "src/masking/ascon-word-asm-x86-64.S"}
+
+
+def word_asm_sigs():
+    """C prototypes of the masked-word functions, read from the header on every run (the lifter needs them to name
+    the argument registers)."""
+    import re
+    h = open(os.path.join("/repo", "src/masking/ascon-masked-word.h")).read()
+    sig = []
+    for ret, name, args in re.findall(r'\n(void|int|uint64_t)\s+(ascon_masked_word_\w+)\s*\(([^;]*?)\);', h):
+        ps = []
+        for a in args.replace("\n", " ").split(","):
+            a = " ".join(a.split())
+            m = re.match(r'(.*?)(\w+)$', a)
+            ps.append("%s %s" % (m.group(1).strip(), m.group(2)))
+        sig.append("--fn=%s:%s:%s" % (name, ret, ",".join(ps)))
+    return sig
+
+
+def mw_src(cfg):
+    """masked-word backend of a configuration: (sources, lift spec).  DEF = the x86-64 assembly toolkit, lifted."""
+    if cfg == "DEF":
+        return ["/verif/harness/lifted_word_asm.c"], ("src/masking/ascon-word-asm-x86-64.S", word_asm_sigs() + ["--plain"])
+    return [MW_SRC[cfg]], None
 
 
 def masked_word_groups(prefix, props, cfg="C64", max_shares=4):
     gs = []
+    wsrc, wlift = mw_src(cfg)
     ops = ["zero", "load", "load_partial", "load_32", "store", "store_partial", "randomize", "xor", "replace"]
     for ns in range(2, max_shares + 1):
         variants = [(op, [], "") for op in ops]
@@ -379,7 +405,7 @@ def masked_word_groups(prefix, props, cfg="C64", max_shares=4):
             variants += [("pad", [], ""), ("separator", [], "")]
         for op, extra, suffix in variants:
             gs.append(Group("%s.word.x%d_%s%s.%s.max%d" % (prefix, ns, op, suffix, cfg, max_shares), props,
-                            "harness/h_masked_word.c", "h_masked_word", [MW_SRC[cfg]], cfg=cfg,
+                            "harness/h_masked_word.c", "h_masked_word", wsrc, cfg=cfg, lift=wlift,
                             defs=["NS=%d" % ns, "OP_" + op, "ASCON_MASKED_MAX_SHARES=%d" % max_shares] + extra,
                             functions=["ascon_masked_word_x%d_%s" % (ns, op if op != "from" else "from_x%s" % extra[0][3:])],
                             unwind=10, timeout=600, must_fail=(["MUSTFAIL"] if op == "randomize" else []),
@@ -393,7 +419,7 @@ def masked_key_groups(prefix, props, cfg="C64", key_shares=(4, 3, 2)):
         for ks in key_shares:
             for op in ("roundtrip", "randomize"):
                 gs.append(Group("%s.key%d.%s.%s.shares%d" % (prefix, bits, op, cfg, ks), props, "harness/h_masked_key.c", "h_masked_key",
-                                ["src/masking/ascon-masked-key.c", MW_SRC[cfg], CLEAN], cfg=cfg,
+                                ["src/masking/ascon-masked-key.c"] + mw_src(cfg)[0] + [CLEAN], cfg=cfg, lift=mw_src(cfg)[1],
                                 defs=["KEYBITS=%d" % bits, "OP_" + op, "ASCON_MASKED_KEY_SHARES=%d" % ks, "ASCON_MASKED_MAX_SHARES=4"] +
                                      (["ASCON_MASKED_DATA_SHARES=2"] if ks >= 2 else []),
                                 functions=["ascon_masked_key_%d_%s" % (bits, "init+extract" if op == "roundtrip" else "randomize_with_trng")],
@@ -411,7 +437,7 @@ def masked_state_groups(prefix, props, cfg="C64"):
             variants.append(("from", ["MS=%d" % ms, "VERIF_ALIAS"], ".x%d.inplace" % ms))
         for op, extra, suffix in variants:
             gs.append(Group("%s.state.x%d_%s%s.%s" % (prefix, ns, op, suffix, cfg), props, "harness/h_masked_state.c", "h_masked_state",
-                            ["src/masking/ascon-masked-state.c", MW_SRC[cfg], BACKEND_SRC[cfg], CLEAN], cfg=cfg,
+                            ["src/masking/ascon-masked-state.c"] + mw_src(cfg)[0] + [BACKEND_SRC[cfg], CLEAN], cfg=cfg, lift=mw_src(cfg)[1],
                             defs=["NS=%d" % ns, "OP_" + op, "ASCON_MASKED_MAX_SHARES=4"] + extra,
                             functions=["ascon_x%d_%s" % (ns, "copy_" + op if op != "randomize" else op)],
                             unwind=42, timeout=600, drop_unused=True, expect_classes=["assertion"]))
@@ -459,7 +485,7 @@ def hkdf_groups(prefix, props, cfg="C64", tier="quick"):
     gs = []
     for v, alg, T in ((0, "hkdf", "ascon_hkdf_state_t"), (100, "hkdfa", "ascon_hkdfa_state_t")):
         base = ["VERIF_PLAIN", "HM_VARIANT=%d" % v, "HKDF_T=" + T, "HKDF_FN(s)=ascon_%s##s" % alg]
-        srcs = ["src/kdf/ascon-%s.c" % alg, CLEAN]
+        srcs = [("src/kdf/ascon-%s.c" % alg, ["ascon_clean=verif_ghost_clean"]), CLEAN]
         def G(name, defs, unwind=100):
             gs.append(Group("%s.%s.%s.%s" % (prefix, alg, name, cfg), props, "harness/h_hkdf.c", "h_hkdf", srcs, cfg=cfg,
                             defs=base + defs, functions=["ascon_%s%s" % (alg, "" if name.startswith("oneshot") else "_" + name.split(".")[0])],
@@ -475,6 +501,10 @@ def hkdf_groups(prefix, props, cfg="C64", tier="quick"):
         for ln in (0, 5, 32, 40):
             G("oneshot.len%d" % ln, ["OP_oneshot", "VERIF_OUTLEN=%d" % ln])
     return gs
+
+
+PBKDF2_GHOST = ["ascon_xof_init_custom=verif_ghost_xof_init_custom", "ascon_xof_copy=verif_ghost_xof_copy",
+                "ascon_xof_free=verif_ghost_xof_free", "ascon_clean=verif_ghost_clean"]
 
 
 def cxof_kdf_groups(prefix, props, which, cfg="C64", tier="quick"):
@@ -502,6 +532,117 @@ def cxof_kdf_groups(prefix, props, which, cfg="C64", tier="quick"):
         for cnt in (0, 1, 2, 3):
             for ol in ((0, 1, 32, 33) if tier == "quick" else (0, 1, 31, 32, 33, 64, 65)):
                 for al in ([],):      # the password is absorbed inside ascon-xof.c (ascon_xof_absorb_custom) by the REAL absorb loop: constant length only
-                    G("ascon_pbkdf2.count%d.out%d%s" % (cnt, ol, ".longpw" if al else ""), ["src/password/ascon-pbkdf2.c"],
+                    G("ascon_pbkdf2.count%d.out%d%s" % (cnt, ol, ".longpw" if al else ""), [("src/password/ascon-pbkdf2.c", PBKDF2_GHOST)],
                       ["OP_pbkdf2", "VERIF_COUNT=%d" % cnt, "VERIF_OUTLEN=%d" % ol] + al, unwind=70)
+    return gs
+
+
+MASKED_AEAD = {"128": ("SPEC_ASCON128", 16, "ascon_masked_key_128_t", "ascon_masked_key_128", 8),
+               "128a": ("SPEC_ASCON128A", 16, "ascon_masked_key_128_t", "ascon_masked_key_128", 16),
+               "80pq": ("SPEC_ASCON80PQ", 20, "ascon_masked_key_160_t", "ascon_masked_key_160", 8)}
+
+
+def masked_aead_groups(prefix, props, tier="quick", ops=("encrypt", "decrypt"), variants=("128", "128a", "80pq"), cfg="C64"):
+    """Masked one-shot AEAD == the unmasked specification for every random tape (plain-assertion groups; the masked
+    permutations are specification stubs = the contract proved in C10; everything else is the real code).
+    Constant (adlen, mlen) per group: empty, partial block, exact block, block + partial, two blocks + partial."""
+    gs = []
+    wsrc, wlift = mw_src(cfg)
+    srcs = ["src/aead/ascon-aead-masked-common.c", "src/aead/ascon-aead-common.c"] + wsrc + \
+           ["src/masking/ascon-masked-state.c", "src/masking/ascon-masked-key.c", CLEAN, X64]
+    shares = [("", [])]
+    if tier == "thorough" and cfg == "C64":
+        shares += [(".k2d2", ["ASCON_MASKED_KEY_SHARES=2", "ASCON_MASKED_DATA_SHARES=2"]),
+                   (".k3d3", ["ASCON_MASKED_KEY_SHARES=3", "ASCON_MASKED_DATA_SHARES=3"]),
+                   (".k4d1", ["ASCON_MASKED_KEY_SHARES=4", "ASCON_MASKED_DATA_SHARES=1"]),
+                   (".k4d4", ["ASCON_MASKED_KEY_SHARES=4", "ASCON_MASKED_DATA_SHARES=4"])]
+    for var in variants:
+        P, kl, kt, kf, R = MASKED_AEAD[var]
+        lens = [(0, 0), (R + 1, 2 * R + 1)] if tier == "quick" else [(0, 0), (1, R), (R, R - 1), (R + 1, 2 * R + 1), (2 * R, 1)]
+        for op in ops:
+            for sfx, sd in shares:
+                for ad, ml in (lens if not sfx else lens[1:3]):
+                    defs = ["VERIF_MA_PARAMS=" + P, "VERIF_MA_KEYLEN=%d" % kl, "VERIF_MA_KEYT=" + kt, "VERIF_MA_KEYINIT=%s_init" % kf,
+                            "VERIF_MA_KEYRAND=%s_randomize" % kf, "VERIF_MA_FN=ascon%s_masked_aead_%s" % (var, op),
+                            "VERIF_ADLEN=%d" % ad, "VERIF_MLEN=%d" % ml, "VERIF_ABSTRACT_P"] + (["VERIF_MA_ENCRYPT"] if op == "encrypt" else []) + sd
+                    if cfg != "C64" and (ad, ml) == (0, 0):
+                        continue
+                    gs.append(Group("%s.masked.ascon%s_masked_aead_%s%s.ad%d.m%d%s" % (prefix, var, op, sfx, ad, ml, "" if cfg == "C64" else "." + cfg), props,
+                                    "harness/h_masked_aead.c", "h_masked_aead", ["src/aead/ascon-aead-masked-%s.c" % var] + srcs,
+                                    cfg=cfg, lift=wlift, defs=defs, drop_unused=True, unwind=200, timeout=900,
+                                    functions=["ascon%s_masked_aead_%s" % (var, op), "ascon_masked_aead_absorb_%d" % R,
+                                               "ascon_masked_aead_%s_%d" % (op, R), "%s_init" % kf],
+                                    assumed=["ascon_x2_permute", "ascon_x3_permute", "ascon_x4_permute", "ascon_trng_generate_64"],
+                                    expect_classes=["assertion"]))
+    return gs
+
+
+def masked_asm_permute_groups(prefix, props, tier="quick", seed=0):
+    """x86-64 assembly masked permutations (default masked backend on this host), lifted on every run: one group per
+    (share count, first_round): round lemma for that round from an arbitrary sharing + plumbing to the exit."""
+    gs = []
+    for n in (2, 3, 4):
+        rounds = list(range(0, 13)) + [13, 255]
+        if tier == "quick":
+            if n == 3:
+                rounds = [r for r in rounds if r % 3 == seed % 3 or r >= 11]
+            if n == 4:
+                rounds = [(seed % 12), 12]
+        sig = ["--fn=ascon_x%d_permute:void:ascon_masked_state_t * state,uint8_t first_round,uint64_t * preserve" % n]
+        for r in rounds:
+            gs.append(Group("%s.permute.x%d.x86_64_asm.round%d" % (prefix, n, r), props, "harness/h_masked_permute_asm.c",
+                            "h_masked_permute_asm", [], cfg="DEF",
+                            defs=["VERIF_SHARES=%d" % n, "VERIF_FIRST=%d" % r, "VERIF_FN=ascon_x%d_permute" % n],
+                            lift=("src/masking/ascon-x%d-asm-x86-64.S" % n, sig), unwind=14, timeout=2400,
+                            functions=["ascon_x%d_permute (x86-64 assembly, lifted)" % n], expect_classes=["assertion"],
+                            note="round loop (<= 12 iterations) completely unwound with unwinding assertion; cut at the loop condition label"))
+            if n == 4:
+                gs[-1].reach = False      # vacuity of this harness is established by the x2/x3 groups (the x4 reach pass costs 10 min)
+    return gs
+
+
+SIV_VARS = {"128": ("SPEC_ASCON128", 16, 8), "128a": ("SPEC_ASCON128A", 16, 16), "80pq": ("SPEC_ASCON80PQ", 20, 8)}
+ISAP_VARS = {"128a": ("SPEC_ISAP_128A", 16), "128": ("SPEC_ISAP_128", 16), "80pq": ("SPEC_ISAP_80PQ", 20)}
+
+
+def mode_lens(R, tier):
+    """(adlen, mlen) pairs around the block boundaries of rate R"""
+    if tier == "quick":
+        return [(0, 0), (R + 1, 2 * R + 1), (R, R - 1)]
+    return [(0, 0), (0, 1), (1, 0), (1, R), (R, R - 1), (R - 1, R + 1), (R + 1, 2 * R + 1), (2 * R, 2 * R), (2 * R + 1, 3 * R - 1)]
+
+
+def siv_groups(prefix, props, tier="quick", ops=("encrypt", "decrypt")):
+    """ASCON-SIV one-shot functions == the documented two-pass construction (plain-assertion groups, abstract permutation)."""
+    gs = []
+    for var, (P, kl, R) in SIV_VARS.items():
+        for op in ops:
+            for ad, ml in mode_lens(R, tier):
+                gs.append(Group("%s.siv.ascon%s_siv_%s.ad%d.m%d" % (prefix, var, op, ad, ml), props, "harness/h_siv.c", "h_siv",
+                                ["src/siv/ascon-siv-%s.c" % var, AEAD_COMMON, X64, CLEAN],
+                                defs=["VERIF_SIV_PARAMS=" + P, "VERIF_SIV_KEYLEN=%d" % kl, "VERIF_SIV_FN=ascon%s_siv_%s" % (var, op),
+                                      "VERIF_ADLEN=%d" % ad, "VERIF_MLEN=%d" % ml, "VERIF_ABSTRACT_P", "VERIF_PLAIN"] +
+                                     (["VERIF_SIV_ENCRYPT"] if op == "encrypt" else []),
+                                drop_unused=True, unwind=70, timeout=900, functions=["ascon%s_siv_%s" % (var, op)],
+                                assumed=["ascon_permute"], expect_classes=["assertion"]))
+    return gs
+
+
+def isap_groups(prefix, props, tier="quick", ops=("encrypt", "decrypt")):
+    """ISAP one-shot functions == ISAP v2.0 for any permutation (plain-assertion groups, logged-oracle permutation)."""
+    gs = []
+    for var, (P, kl) in ISAP_VARS.items():
+        for op in ops:
+            lens = mode_lens(8, tier)
+            if tier == "quick":
+                lens = lens[1:] if var == "128a" else lens[1:2]
+            for ad, ml in lens:
+                gs.append(Group("%s.isap.ascon%s_isap_aead_%s.ad%d.m%d" % (prefix, var, op, ad, ml), props, "harness/h_isap.c", "h_isap",
+                                ["src/isap/ascon-isap-%s.c" % var, AEAD_COMMON, X64, CLEAN],
+                                defs=["VERIF_ISAP_PARAMS=" + P, "VERIF_ISAP_KEYLEN=%d" % kl, "VERIF_ISAP_KEYT=ascon%s_isap_aead_key_t" % var,
+                                      "VERIF_ISAP_FN(x)=ascon%s_isap_aead##x" % var, "VERIF_ADLEN=%d" % ad, "VERIF_MLEN=%d" % ml, "VERIF_PLAIN"] +
+                                     (["VERIF_ISAP_ENCRYPT"] if op == "encrypt" else []),
+                                drop_unused=True, unwind=170, timeout=1500,
+                                functions=["ascon%s_isap_aead_init" % var, "ascon%s_isap_aead_%s" % (var, op)],
+                                assumed=["ascon_permute"], expect_classes=["assertion"]))
     return gs
